@@ -233,6 +233,12 @@ pub enum CustomEvent<'a, T: 'a> {
     /// The given custom action key is released.
     Release(&'a T),
 }
+/// Verification probe (hook H5): custom events dropped because another one was already recorded
+/// for the same tick.
+#[cfg(kanata_verif)]
+pub static VERIF_CUSTOM_EVENTS_DROPPED: core::sync::atomic::AtomicU64 =
+    core::sync::atomic::AtomicU64::new(0);
+
 impl<T> CustomEvent<'_, T> {
     /// Update an event according to a new event.
     ///
@@ -240,6 +246,13 @@ impl<T> CustomEvent<'_, T> {
     /// Release`
     fn update(&mut self, e: Self) {
         use CustomEvent::*;
+        #[cfg(kanata_verif)]
+        if matches!(
+            (&e, &*self),
+            (Press(_), Press(_)) | (Press(_), Release(_)) | (Release(_), Release(_))
+        ) {
+            VERIF_CUSTOM_EVENTS_DROPPED.fetch_add(1, core::sync::atomic::Ordering::Relaxed);
+        }
         match (&e, &self) {
             (Release(_), NoEvent) | (Release(_), Press(_)) => *self = e,
             (Press(_), NoEvent) => *self = e,
